@@ -491,6 +491,7 @@ func (c *Client) handleFetch(seqNum uint32) error {
 		})
 		if cmd != nil {
 			cmd := cmd.(*FetchCommand)
+			verifPoint("deliver", cmd.tag)
 			cmd.msgs <- msg
 		} else if handler := c.options.unilateralDataHandler().Fetch; handler != nil {
 			go handler(msg)
